@@ -70,6 +70,7 @@ package pipeline
 //@     requires root == event.Root && g_clean
 //@     set g_undec := e != nil
 //@   callee ByStream(stream) (r)
+//@     requires dec == decoder.CRI
 //@     pure
 //@     set g_so := r
 //@   callee IsSpam(id, name, isNew, event, t, meta) (r)
